@@ -354,11 +354,11 @@ def stepNormal (s : DSt) (o : Oracle) (frameSize maxDataBytes : Int) : DSt × Pk
   let sp := frameSplit d.mode frameSize s.fs        -- (enc_frame_size, nb_frames)
   let multi := decide (sp.2 ≠ 1 ∨ sp.1 ≠ frameSize)
   let toc := genToc d.mode (s.fs / sp.1) (tocBandwidth o d) d.streamChannels
-  -- :1674-1678 multi-frame packets: bak_to_mono forces mono for good, else prev_channels is set up front
-  let forceChannels := if multi ∧ d.toMono ≠ 0 then 1 else s.forceChannels
+  -- multi-frame packets: prev_channels is set up front unless a stereo->mono switch is pending
+  -- (since fix 34e4f763 the call no longer overwrites the user's force_channels)
   let prevChannels0 := if multi ∧ d.toMono = 0 then d.streamChannels else s.prevChannels
   let s1 : DSt := { s with streamChannels := d.streamChannels, mode := d.mode, bandwidth := d.bandwidth,
-                           toMono := d.toMono, forceChannels, prevChannels := prevChannels0 }
+                           toMono := d.toMono, prevChannels := prevChannels0 }
   let s2 : DSt :=
     -- SILK DTX return (:2117-2127): nothing is updated except prev_channels (fix 88264869)
     if o.completion = 0 then { s1 with prevChannels := d.streamChannels }
